@@ -22,7 +22,7 @@ INFO = {
  'C17': ('random generators', 'THEOREMS (Generators.v): for EVERY choice list: well formed, 2n-1 nodes, n leaves, rooted strictly binary, unique Tip_j names, lengths present/absent; caterpillar shape; n = 0 refused. CHECK: seeds via hook, choices read back and replayed on the model', '4/C17', 'distribution supports belong to rand_distr: checked on outputs'),
  'C18': ('CLI', 'THEOREMS (Cli.v model, CliProps.v): collapse changes exactly the lengths strictly below the threshold (tips excluded on request, root untouched); remove = prune* then compress: invariant kept, no unary node, named tips gone, remaining distances preserved; rescale; + the library theorems for the report subcommands. CHECK: the real binary on generated files (layouts, options), compared with the model as independent computation', '4/C18', 'process layer observed, not modelled'),
  'C19': ('radial layout', 'THEOREMS (LayoutProps.v): arena layout = spec layout; one segment per non-root node; direction = wedge middle; wedges disjoint / proportional / summing (Q turns); |segment| = length (R). CHECK: coordinates vs model angles at 1e-9, after merge/resolve', '4/C19', 'sin/cos/pi outside the model; two R-level lemmas use the Reals axioms'),
- 'C20': ('errors not panics', 'THEOREMS (NoPanic.v, Invariants.v): every modelled function is safe (never Panic / OutOfFuel) on every reachable arena / consistent matrix and every argument. CHECK: exhaustive cross product functions x degenerate classes incl. several roots, rename sequences; catch_unwind + crash + time limit', '4/C20', 'several-root arenas: cross product only'),
+ 'C20': ('errors not panics', 'THEOREMS (NoPanic.v, Invariants.v, NoPanicForest.v): every modelled function is safe (never Panic / OutOfFuel) on every reachable arena / consistent matrix and every argument, arenas holding several roots (Tree::add on a non-empty arena) included. CHECK: exhaustive cross product functions x degenerate classes incl. several roots, rename sequences; catch_unwind + crash + time limit', '4/C20', 'arenas that are not forests (not reachable through the API) and public-field writes: check only'),
 }
 
 def main():
